@@ -96,6 +96,6 @@ RateRowOK(r) ==
 \* has a usable rate function and at least one worker
 TriggerRowOK(r) ==
     /\ r.panicked = FALSE                 \* malformed input never crashes the process
-    /\ r.accepted => (r.interval_ok /\ r.workers >= 1 /\ r.ran_ok)
+    /\ r.accepted => (r.interval_ok /\ r.workers >= 1 /\ r.ran_ok /\ r.rate_ok)
     /\ (r.accepted = FALSE) => r.setup_ran = FALSE        \* rejected BEFORE setup runs
 =============================================================================
